@@ -411,8 +411,10 @@ class PiecewiseConstantBirthDeath(Distribution):
 
         mask = (N > 0).logical_and(rho > 0.0)
         if torch.any(mask):
-            p = torch.masked_select(N, mask) * torch.masked_select(rho, mask).log()
-            log_p += p.squeeze() if log_p.dim() == 0 else p
+            # summed per sample: the number of rho-sampling events with sampled
+            # tips can differ between samples
+            log_rho = torch.where(mask, rho, torch.ones_like(rho)).log()
+            log_p = log_p + (N * log_rho).sum(-1)
 
         if self.removal_probability is not None:
             log_p += torch.tensor(2.0).log() * (taxa_shape[-1] - 1)
